@@ -216,3 +216,52 @@ func isErrorType(t types.Type) bool {
 	errIface := types.Universe.Lookup("error").Type().Underlying().(*types.Interface)
 	return types.Implements(t, errIface) || types.Identical(t, types.Universe.Lookup("error").Type())
 }
+
+// nodeDispatcher returns the function that holds the type switch over parser.Node with the most cases: fn itself, or —
+// when the dispatch was moved out of it (eval → checkpoint + evalNode) — a function of the same package that fn calls
+// directly with a Node argument.
+func nodeDispatcher(pkg *packages.Package, fn *FuncDecl, iface *types.Interface) (*FuncDecl, *ast.TypeSwitchStmt) {
+	if fn == nil || fn.Decl.Body == nil {
+		return fn, nil
+	}
+	info := pkg.TypesInfo
+	best := func(body ast.Node) *ast.TypeSwitchStmt {
+		var ts *ast.TypeSwitchStmt
+		for _, cand := range typeSwitches(info, body, func(subj ast.Expr) bool {
+			t := info.TypeOf(subj)
+			return t != nil && types.Identical(t.Underlying(), iface)
+		}) {
+			if ts == nil || len(cand.Body.List) > len(ts.Body.List) {
+				ts = cand
+			}
+		}
+		return ts
+	}
+	if ts := best(fn.Decl.Body); ts != nil {
+		return fn, ts
+	}
+	var outFn *FuncDecl
+	var outTS *ast.TypeSwitchStmt
+	ast.Inspect(fn.Decl.Body, func(n ast.Node) bool {
+		call, ok := n.(*ast.CallExpr)
+		if !ok {
+			return true
+		}
+		cf := calleeFunc(info, call)
+		if cf == nil || cf.Pkg() != pkg.Types {
+			return true
+		}
+		for _, d2 := range Funcs(pkg) {
+			if d2.Obj == cf && d2.Decl.Body != nil {
+				if ts := best(d2.Decl.Body); ts != nil && (outTS == nil || len(ts.Body.List) > len(outTS.Body.List)) {
+					outFn, outTS = d2, ts
+				}
+			}
+		}
+		return true
+	})
+	if outFn != nil {
+		return outFn, outTS
+	}
+	return fn, nil
+}
